@@ -7,8 +7,10 @@
   (what the repository's own tests use);
 * `run` calls the real run_migrations the way SqliteWorkflowStore does (new connection per call, or one
   persistent connection for all calls);
-* `crash` runs it in a forked child that is killed (os._exit, nothing is closed or flushed by Python)
-  right before its n-th SQL statement, as seen by sqlite3's statement trace callback;
+* `kill_points` runs it once and copies the database file + WAL aside right before every SQL statement
+  (sqlite3's statement trace callback): each copy is what the disk holds if the process is killed at
+  that point; `restore` puts such a copy in place.  `crash` does the real thing for a sample: a forked
+  child killed (os._exit, nothing is closed or flushed by Python) right before its n-th statement;
 * `project` is the single abstraction function: normalised schema objects (structure, not DDL text),
   the schema_migrations rows of package "server", PRAGMA user_version, plus the model-level reading
   (which migration versions' objects are present).
